@@ -197,6 +197,11 @@ func checkErrorBranch(fn *ssa.Function, t nilTest, eAliases map[ssa.Value]bool, 
 		if cellKnownNonNil(fn, last, r) {
 			continue
 		}
+		// the value returned is the very value this test found non-nil (a phi merging several errors,
+		// judged once at the end): non-nil whatever it merges
+		if t.Compared != nil && strip(last) == strip(t.Compared) {
+			continue
+		}
 		if good, w := provablyNonNilError(fn, last, eAliases); !good {
 			return false, "on the branch where the error is non-nil the function " + w
 		}
@@ -210,6 +215,9 @@ func checkErrorBranch(fn *ssa.Function, t nilTest, eAliases map[ssa.Value]bool, 
 		}
 	}
 	if leaks && leakReturnsTheError(fn, region, eAliases) {
+		return true, ""
+	}
+	if leaks && leakReachesLaterTest(fn, region, eAliases) {
 		return true, ""
 	}
 	if strict && leaks {
@@ -274,6 +282,114 @@ func leakReturnsTheError(fn *ssa.Function, region map[*ssa.BasicBlock]bool, eAli
 	return true
 }
 
+// errflowIsStep: set by runErrflow to the class-K predicate of the rule being run (a further step of
+// the operation: a storage call, a keystore helper).
+var errflowIsStep func(fn *ssa.Function, call *ssa.Call) bool
+
+// leakReachesLaterTest: the "one err variable, judged at the end" style —
+//
+//	err = step(); if err != nil { log }      // rejoins
+//	…                                        // nothing but logging
+//	if err != nil { return err }             // the same error, through a phi
+//
+// accepted when every block the error branch rejoins leads, without another step of the operation on
+// the way, to a nil test of a value that merges the error (a phi alias) whose non-nil branch returns a
+// provably non-nil error and does not rejoin.
+func leakReachesLaterTest(fn *ssa.Function, region map[*ssa.BasicBlock]bool, eAliases map[ssa.Value]bool) bool {
+	// later tests: nil tests of phi aliases located outside the region
+	var later []nilTest
+	for v := range eAliases {
+		if _, isPhi := v.(*ssa.Phi); !isPhi {
+			continue
+		}
+		for _, t := range nilTestsOf(fn, v) {
+			if !region[t.If.Block()] {
+				later = append(later, t)
+			}
+		}
+	}
+	if len(later) == 0 {
+		return false
+	}
+	isLater := func(b *ssa.BasicBlock) *nilTest {
+		for i := range later {
+			if later[i].If.Block() == b {
+				return &later[i]
+			}
+		}
+		return nil
+	}
+	for x := range region {
+		for _, s := range x.Succs {
+			if region[s] {
+				continue
+			}
+			// walk from s to a later test; no step, no return, no loop back on the way
+			seen := map[*ssa.BasicBlock]bool{}
+			work := []*ssa.BasicBlock{s}
+			for len(work) > 0 {
+				b := work[len(work)-1]
+				work = work[:len(work)-1]
+				if seen[b] {
+					continue
+				}
+				seen[b] = true
+				if region[b] {
+					return false
+				}
+				for _, in := range b.Instrs {
+					switch y := in.(type) {
+					case *ssa.Return:
+						return false
+					case *ssa.Call:
+						if errflowIsStep != nil && errflowIsStep(fn, y) {
+							return false
+						}
+					}
+				}
+				if t := isLater(b); t != nil {
+					// the non-nil branch of the later test must fail for good
+					r2 := dominatedRegion(fn, t.NonNil)
+					if len(t.NonNil.Preds) != 1 {
+						return false
+					}
+					okRet := false
+					for _, r := range returnsOf(fn) {
+						if !r2[r.Block()] || len(r.Results) == 0 {
+							continue
+						}
+						last := r.Results[len(r.Results)-1]
+						if t.Compared != nil && strip(last) == strip(t.Compared) {
+							okRet = true
+							continue
+						}
+						if good, _ := provablyNonNilError(fn, last, eAliases); !good && !cellKnownNonNil(fn, last, r) {
+							return false
+						}
+						okRet = true
+					}
+					for y := range r2 {
+						for _, s2 := range y.Succs {
+							if !r2[s2] {
+								return false
+							}
+						}
+					}
+					if !okRet {
+						return false
+					}
+					continue
+				}
+				if len(b.Succs) == 0 {
+					return false
+				}
+				work = append(work, b.Succs...)
+			}
+		}
+	}
+	return true
+}
+
 func provablyNonNilErrorOrAlias(fn *ssa.Function, v ssa.Value, eAliases map[ssa.Value]bool) (bool, string) {
 	return provablyNonNilError(fn, v, eAliases)
 }
@@ -320,6 +436,8 @@ func nilValueOnError(f *ssa.Function) bool {
 }
 
 func runErrflow(c *Ctx, cfg errflowCfg) {
+	errflowIsStep = cfg.classK
+	defer func() { errflowIsStep = nil }()
 	for _, fn := range cfg.scope {
 		ord := map[string]int{}
 		for _, b := range fn.Blocks {
